@@ -1,0 +1,116 @@
+//go:build verif && linux && !appengine
+
+package fsnotify
+
+import (
+	"os"
+	"sort"
+
+	"golang.org/x/sys/unix"
+)
+
+// Verification hooks for the inotify backend; compiled only with -tags verif.
+// Nothing here is reachable from the normal API.
+
+type (
+	// VerifWatch is a copy of one entry of the wd table.
+	VerifWatch struct {
+		Key     uint32 // key in the wd table
+		Wd      uint32
+		Flags   uint32
+		Path    string
+		Recurse bool
+	}
+	// VerifPathEntry is a copy of one entry of the path table.
+	VerifPathEntry struct {
+		Path string
+		Wd   uint32
+	}
+	// VerifCookie is a copy of one slot of the rename-cookie ring.
+	VerifCookie struct {
+		Cookie uint32
+		Path   string
+	}
+	// VerifSnapshot is a consistent (taken under mu) copy of the bookkeeping.
+	VerifSnapshot struct {
+		Wd          []VerifWatch     // sorted by Key
+		Path        []VerifPathEntry // sorted by Path
+		Cookies     [10]VerifCookie
+		CookieIndex uint8
+		Fd          int
+	}
+)
+
+// VerifTables returns a snapshot of the inotify bookkeeping of w.
+func VerifTables(w *Watcher) VerifSnapshot {
+	b := w.b.(*inotify)
+	b.mu.Lock()
+	defer b.mu.Unlock()
+
+	var s VerifSnapshot
+	for k, ww := range b.watches.wd {
+		if ww == nil {
+			s.Wd = append(s.Wd, VerifWatch{Key: k, Path: "<nil>"})
+			continue
+		}
+		s.Wd = append(s.Wd, VerifWatch{Key: k, Wd: ww.wd, Flags: ww.flags, Path: ww.path, Recurse: ww.recurse})
+	}
+	sort.Slice(s.Wd, func(i, j int) bool { return s.Wd[i].Key < s.Wd[j].Key })
+	for p, wd := range b.watches.path {
+		s.Path = append(s.Path, VerifPathEntry{Path: p, Wd: wd})
+	}
+	sort.Slice(s.Path, func(i, j int) bool { return s.Path[i].Path < s.Path[j].Path })
+
+	b.cookiesMu.Lock()
+	for i, c := range b.cookies {
+		s.Cookies[i] = VerifCookie{Cookie: c.cookie, Path: c.path}
+	}
+	s.CookieIndex = b.cookieIndex
+	b.cookiesMu.Unlock()
+	s.Fd = b.fd
+	return s
+}
+
+// VerifEventer calls the unexported newEvent on a detached backend value that
+// has no descriptor and no reader goroutine; the cookie ring persists between
+// calls on the same VerifEventer.
+type VerifEventer struct{ b *inotify }
+
+func VerifNewEventer() *VerifEventer { return &VerifEventer{b: &inotify{}} }
+
+func (v *VerifEventer) NewEvent(name string, mask, cookie uint32) Event {
+	return v.b.newEvent(name, mask, cookie)
+}
+
+// VerifNewInjected builds a Watcher exactly as newBackend does – a real
+// inotify instance is used for inotify_add_watch and inotify_rm_watch – except
+// that the reader goroutine reads from one end of a SOCK_SEQPACKET socket pair
+// instead of from the inotify descriptor. Every datagram written to injectFd
+// is one read() for the unmodified readEvents loop. realFd is the inotify
+// descriptor (nobody reads it unless the caller does); the caller owns
+// injectFd and must close realFd after Close, since Close only closes the
+// socket end.
+func VerifNewInjected(sz uint) (w *Watcher, realFd int, injectFd int, err error) {
+	fd, errno := unix.InotifyInit1(unix.IN_CLOEXEC | unix.IN_NONBLOCK)
+	if fd == -1 {
+		return nil, -1, -1, errno
+	}
+	sp, err := unix.Socketpair(unix.AF_UNIX, unix.SOCK_SEQPACKET|unix.SOCK_CLOEXEC|unix.SOCK_NONBLOCK, 0)
+	if err != nil {
+		unix.Close(fd)
+		return nil, -1, -1, err
+	}
+
+	ev, errs := make(chan Event, sz), make(chan error)
+	b := &inotify{
+		shared:      newShared(ev, errs),
+		Events:      ev,
+		Errors:      errs,
+		fd:          fd,
+		inotifyFile: os.NewFile(uintptr(sp[0]), ""),
+		watches:     newWatches(),
+		doneResp:    make(chan struct{}),
+	}
+	go b.readEvents()
+	return &Watcher{b: b, Events: ev, Errors: errs}, fd, sp[1], nil
+}
